@@ -30,7 +30,8 @@ struct Config {
   int edge_pct;    // percentage of type-limit-biased coefficients
   int maxdim;
   bool pip_maxcol;
-  Config() : bits(16), lim(32767), small(4), mid(40), edge_pct(3), maxdim(3), pip_maxcol(false) {}
+  int scale_pct;   // per-domain multiplier of small/mid (set by the case loop)
+  Config() : bits(16), lim(32767), small(4), mid(40), edge_pct(3), maxdim(3), pip_maxcol(false), scale_pct(100) {}
 };
 inline Config& G() { static Config g; return g; }
 inline long isqrt_l(long v) { long r = 0; while ((r + 1) <= v / (r + 1)) ++r; return r; }
@@ -39,7 +40,7 @@ inline void configure(int bits) {
   g.lim = bits == 64 ? 0x7fffffffffffffffL : (1L << (bits - 1)) - 1;
   switch (bits) {
   case 8:  g.small = 2;  g.mid = 5;       g.maxdim = 2; break;
-  case 16: g.small = 3;  g.mid = 24;      g.maxdim = 3; break;
+  case 16: g.small = 8;  g.mid = 300;     g.maxdim = 3; break;
   case 32: g.small = 9;  g.mid = 1500;    g.maxdim = 3; break;
   default: g.small = 40; g.mid = 3000000; g.maxdim = 3; break;
   }
@@ -60,12 +61,15 @@ inline long rc_edge() {
 inline long rc() {
   const Config& g = G(); int k = rnd(0, 99);
   if (k < g.edge_pct) return rc_edge();
-  if (k < g.edge_pct + 14) return rl(-g.mid, g.mid);
-  return rl(-g.small, g.small);
+  long sm = std::max(1L, g.small * g.scale_pct / 100), md = std::max(sm, g.mid * g.scale_pct / 100);
+  if (k < g.edge_pct + 14) return rl(-md, md);
+  return rl(-sm, sm);
 }
 inline long abs_lim(long v) { return v >= 0 ? v : (v == -G().lim - 1 ? G().lim : -v); }
 inline long rc_nz() { for (;;) { long v = rc(); if (v != 0) return v; } }
-inline long rc_small_nz() { const Config& g = G(); long v = rnd(1, (int) g.small); return coin() ? v : -v; }
+inline long rc_small_nz() { const Config& g = G(); long v = rl(1, g.small); return coin() ? v : -v; }
+// large constant terms (up to half the type's range): sums of two of them leave the range
+inline long rc_big() { const Config& g = G(); return rl(-(g.lim / 2), g.lim / 2); }
 // wide distribution: uniformly random bit length up to the full width (for the scalar kernel script)
 inline long rc_wide() {
   const Config& g = G();
